@@ -62,6 +62,23 @@ fn main() {
     assert_eq!(COUNT.load(Ordering::SeqCst), 1);
     assert_eq!(*rw.read().unwrap(), 3);
     assert!(matches!(rx.recv_timeout(std::time::Duration::from_secs(1)), Err(mpsc::RecvTimeoutError::Disconnected)));
+    // simulated clock: sleeping costs no wall-clock time and moves `Instant`
+    {
+        let wall = ::std::time::Instant::now();
+        let t0 = std::time::Instant::now();
+        thread::sleep(std::time::Duration::from_secs(3600));
+        assert!(t0.elapsed() >= std::time::Duration::from_secs(3600));
+        assert!(wall.elapsed() < ::std::time::Duration::from_secs(5));
+        // a consumer with a 2 s timeout against a producer that stalls for 10 s
+        let (tx, rx) = mpsc::channel::<u8>();
+        let h = thread::spawn(move || {
+            thread::sleep(std::time::Duration::from_secs(10));
+            let _ = tx.send(1);
+        });
+        assert!(matches!(rx.recv_timeout(std::time::Duration::from_secs(2)), Err(mpsc::RecvTimeoutError::Timeout)));
+        assert_eq!(rx.recv().unwrap(), 1);
+        h.join().unwrap();
+    }
     // scoped threads
     {
         let data = vec![1usize, 2, 3, 4];
